@@ -63,6 +63,13 @@ static var mk_table(void) { return new_raw(Table, KT, VT); }
 static void del_table(var t, int managed) { if (managed) del(t); else del_raw(t); }
 
 static int lastq = -1, lastq_slot = -1;
+/* hw: history feature (hwkey=1): the largest slot count table A had in this history, while it is larger than the current one.
+** Two histories that end in the same slot layout but of which only one went through a larger table differ in whatever a
+** derived field (a cached threshold, a capacity) still holds from the larger table. */
+static int hwkey; static size_t hw;
+/* mk: ... and the kind of operation that made A's current slot array (the last one that changed its slot count): the
+** paths that build a slot array (new, growth in set, shrink in rem, resize, assign) each set the derived fields themselves */
+static const char* mk = "new"; static size_t mk_nslots;
 static void reset(void) {
   vf_led_err[0] = 0;
   TA = mk_table(); A_managed = 0;
@@ -70,7 +77,7 @@ static void reset(void) {
   memset(&MA, 0, sizeof MA); memset(&MB, 0, sizeof MB);
   MA.exists = 1;
   lastkind = "init";
-  lastq = -1; lastq_slot = -1;
+  lastq = -1; lastq_slot = -1; hw = 0; mk = "new"; mk_nslots = ((struct Table*)TA)->nslots;
 }
 
 static void cleanup(void) {
@@ -106,6 +113,7 @@ static size_t canon(char* buf, size_t cap) {
   size_t o = canon_one(TA, buf, cap);
   if (two) { o += snprintf(buf + o, cap - o, " B:"); o += canon_one(TB, buf + o, cap - o); }
   if (lastq >= 0) o += snprintf(buf + o, cap - o, " q%d@%d", lastq, lastq_slot);
+  if (hwkey && TA && hw > ((struct Table*)TA)->nslots) o += snprintf(buf + o, cap - o, " hw%zu by %s", hw, mk);
   return o;
 }
 
@@ -651,6 +659,8 @@ static int apply_inner(int op) {
 
 static int apply(int op) {
   int r = apply_inner(op);
+  if (TA && ((struct Table*)TA)->nslots > hw) hw = ((struct Table*)TA)->nslots;
+  if (TA && ((struct Table*)TA)->nslots != mk_nslots) { mk_nslots = ((struct Table*)TA)->nslots; mk = lastkind; }
   if (lastq >= 0 && !MA.present[lastq % K]) lastq = -1;
   return r;
 }
@@ -764,6 +774,7 @@ int main(int argc, char** argv) {
   K = (int)vf_param_i("nkeys", 5);
   if (K > MAXK) K = MAXK;
   two = (int)vf_param_i("two", 0);
+  hwkey = (int)vf_param_i("hwkey", 0);
   alias_ops = (int)vf_param_i("alias", 1);
   light = (int)vf_param_i("light", 0);
   const char* prop = vf_param("prop", "C02");
